@@ -74,7 +74,7 @@ var c08OCIs = func() []*oci.Spec {
 // given extension, to every entry point that consumes untrusted Spec data.
 // It returns "" unless something panicked, hung, or a malformed file was not
 // reported / affected another file.
-func (e *c08Env) exercise(data []byte, ext string) (msg string, info map[string]bool) {
+func (e *c08Env) exercise(data []byte, ext string, extraOCI ...*oci.Spec) (msg string, info map[string]bool) {
 	info = map[string]bool{}
 	cdi.SetSpecValidator(nil)
 	schema.Set(schema.BuiltinSchema())
@@ -141,7 +141,7 @@ func (e *c08Env) exercise(data []byte, ext string) (msg string, info map[string]
 				for _, d := range loaded.Devices {
 					all = append(all, loaded.Kind+"="+d.Name)
 				}
-				for _, o := range c08OCIs {
+				for _, o := range append(append([]*oci.Spec{}, c08OCIs...), extraOCI...) {
 					for _, q := range all {
 						_, _ = c.InjectDevices(gen.CloneOCI(o), q)
 						if dev := c.GetDevice(q); dev != nil {
@@ -332,8 +332,10 @@ func TestC08Rapid(t *testing.T) {
 		if len(data) > 64*1024 {
 			data = data[:64*1024]
 		}
+		// OCI specs for the injection part: a well-formed one and one with stacked mounts, repeated paths, odd entries
+		ocis := []*oci.Spec{gen.OCISpec(t, "oci", gen.OCIOpts{}), gen.OCISpecHostile(t, "hoci")}
 		t0 := time.Now()
-		msg, info := env.exercise(data, ext)
+		msg, info := env.exercise(data, ext, ocis...)
 		rec.Add("ms:"+kind, time.Since(t0).Milliseconds())
 		rec.Add("n:"+kind, 1)
 		if msg != "" {
@@ -401,6 +403,7 @@ func TestC08Watcher(t *testing.T) {
 	stage := filepath.Join(t.TempDir(), "stage")
 	_ = os.MkdirAll(dir, 0o755)
 	_ = os.MkdirAll(stage, 0o755)
+	waitForInotify()
 	cache, _ := cdi.NewCache(cdi.WithSpecDirs(dir), cdi.WithAutoRefresh(true))
 	defer cache.Configure(cdi.WithAutoRefresh(false))
 	undecidedIfNoInotify(t, cache)
